@@ -11,12 +11,27 @@ from scipy.linalg import eigvals
 from scipy.sparse._sparsetools import (csr_scale_rows, bsr_scale_rows,
                                        csr_scale_columns, bsr_scale_columns)
 
-# pylint: disable=unused-import
-from scipy.sparse.linalg._isolve.utils import make_system  # noqa: F401
+from scipy.sparse.linalg._isolve.utils import make_system as _scipy_make_system
 from scipy.sparse._sputils import upcast
 
 from .. import amg_core
 from . import linalg
+
+
+def make_system(A, M, x0, b):
+    """Make a linear system Ax=b (see scipy.sparse.linalg._isolve.utils.make_system).
+
+    Returns
+    -------
+    (A, M, x, b, postprocess)
+        Newer versions of SciPy no longer return the ``postprocess`` function;
+        the identity is supplied in that case.
+
+    """
+    system = tuple(_scipy_make_system(A, M, x0, b))
+    if len(system) == 4:
+        return system + (lambda x: x,)
+    return system
 
 
 def get_blocksize(A):
